@@ -43,6 +43,7 @@ func init() {
 			{ID: "C19-R17", Title: "byte_slice methods call their bytes namesake", Floor: 10, Run: byteSliceMethodsCallTheirNamesake},
 			{ID: "C19-R18", Title: "encodings are chosen by options, not by data", Floor: 1, Run: encodingsAreChosenByOptionsNotByData},
 			{ID: "C19-R19", Title: "padded encodings see the whole input", Floor: 2, Run: paddedEncodingsSeeTheWholeInput},
+			{ID: "C19-R20", Title: "module builtins call the Go function they are named after", Floor: 30, Run: moduleFunctionsCallTheirNamesake},
 		},
 	})
 }
